@@ -88,6 +88,7 @@ func newDuplexHTTPCall(
 // is called.
 func (d *duplexHTTPCall) Write(data []byte) (int, error) {
 	d.ensureRequestMade()
+	verifYield("write.enter")
 	// Before we send any data, check if the context has been canceled.
 	if err := d.ctx.Err(); err != nil {
 		d.SetError(err)
@@ -95,6 +96,7 @@ func (d *duplexHTTPCall) Write(data []byte) (int, error) {
 	}
 	// It's safe to write to this side of the pipe while net/http concurrently
 	// reads from the other side.
+	verifYield("write.pipe")
 	bytesWritten, err := d.requestBodyWriter.Write(data)
 	if err != nil && errors.Is(err, io.ErrClosedPipe) {
 		// Signal that the stream is closed with the more-typical io.EOF instead of
@@ -123,6 +125,7 @@ func (d *duplexHTTPCall) CloseWrite() error {
 	// forever. To make sure users don't have to worry about this, the generated
 	// code for unary, client streaming, and server streaming RPCs must call
 	// CloseWrite automatically rather than requiring the user to do it.
+	verifYield("closewrite.pipe")
 	return d.requestBodyWriter.Close()
 }
 
@@ -141,6 +144,7 @@ func (d *duplexHTTPCall) Read(data []byte) (int, error) {
 	// First, we wait until we've gotten the response headers and established the
 	// server-to-client side of the stream.
 	d.BlockUntilResponseReady()
+	verifYield("read.enter")
 	if err := d.getError(); err != nil {
 		// The stream is already closed or corrupted.
 		return 0, err
@@ -153,6 +157,7 @@ func (d *duplexHTTPCall) Read(data []byte) (int, error) {
 	if d.response == nil {
 		return 0, fmt.Errorf("nil response from %v", d.request.URL)
 	}
+	verifYield("read.body")
 	n, err := d.response.Body.Read(data)
 	return n, wrapIfRSTError(err)
 }
@@ -162,6 +167,7 @@ func (d *duplexHTTPCall) CloseRead() error {
 	if d.response == nil {
 		return nil
 	}
+	verifYield("closeread.discard")
 	if err := discard(d.response.Body); err != nil {
 		return wrapIfRSTError(err)
 	}
@@ -200,6 +206,7 @@ func (d *duplexHTTPCall) ResponseTrailer() http.Header {
 // Write return an error wrapping io.EOF. It's safe to call concurrently with
 // any other method.
 func (d *duplexHTTPCall) SetError(err error) {
+	verifYield("seterror.enter")
 	d.errMu.Lock()
 	if d.err == nil {
 		d.err = wrapIfContextError(err)
@@ -215,6 +222,7 @@ func (d *duplexHTTPCall) SetError(err error) {
 	//
 	// It's safe to ignore the returned error here. Under the hood, Close calls
 	// CloseWithError, which is documented to always return nil.
+	verifYield("seterror.closepipe")
 	_ = d.requestBodyReader.Close()
 }
 
@@ -238,10 +246,13 @@ func (d *duplexHTTPCall) makeRequest() {
 	// This runs concurrently with Write and CloseWrite. Read and CloseRead wait
 	// on d.responseReady, so we can't race with them.
 	defer close(d.responseReady)
+	defer verifYield("do.exit")
 
 	// Once we send a message to the server, they send a message back and
 	// establish the receive side of the stream.
+	verifYield("do.before")
 	response, err := d.httpClient.Do(d.request)
+	verifYield("do.after")
 	if err != nil {
 		err = wrapIfContextError(err)
 		err = wrapIfLikelyH2CNotConfiguredError(d.request, err)
